@@ -36,6 +36,13 @@ func main() {
 	workers := 12
 	poolc := make(chan *DrvPool, 1)
 	go func() { poolc <- newPool(f.Driver, workers, bases.W[0], res) }()
+	var far *Base
+	if f.Thorough() && f.Replay == "" {
+		far = bases.extend(r, res)
+		far.Pool = newPool(f.Driver, workers/2, far.W[0], res)
+		defer far.Pool.closeAll()
+		logf("second base built (%v)", time.Since(t0))
+	}
 	v := probeVariant(bases, r)
 	pool := <-poolc
 	defer pool.closeAll()
@@ -68,10 +75,13 @@ func main() {
 	nRandom := f.Scale(24, 400)
 	for i := 0; i < nRandom; i++ {
 		id := uint64(i)
-		spawn(func() { runRandom(bases, r.Fork(5000+id), 100+id, res, f, pool, v) })
+		spawn(func() { runRandom(bases, far, r.Fork(5000+id), 100+id, res, f, pool, v) })
 	}
 	wg.Wait()
 	pool.closeAll()
+	if far != nil {
+		far.Pool.closeAll()
+	}
 	logf("done in %v", time.Since(t0))
 	lib.Finish(f, res)
 }
